@@ -1133,7 +1133,7 @@ func c28ReplayTie(c *Ctx, dir string, line string) bool {
 func c28(c *Ctx) {
 	c.Rule = "tie streams: atoi/shift/loop/exit/flagParser/Params/wait/getopts.next/getopts sequences/pushd-popd sequences/" +
 		"string and array slicing/arith l-values/assoc subscripts on boundary numbers {0,±1,±2^31,±2^63,huge,'',+,-,1a…} and odd flags; " +
-		"search: builtins × ≤5 odd arguments (also in functions, loops, subshells, pipelines, repeated calls), grammar-generated and " +
+		"search: builtins × ≤5 odd arguments (also in functions, loops, subshells, pipelines, repeated calls), array-writer/keyed-reader sequences on one variable + List/Indexes invariant probe after every program, grammar-generated and " +
 		"mutated programs (seeds: runTests of interp/interp_test.go) in bash/posix/mksh/zsh/bats, New/Params option lists; " +
 		"non-trivial = the program parsed and ran at least one statement (search) or had ≥1 argument (tie); distinct by exact input"
 	if c.Shards > 1 {
